@@ -528,7 +528,7 @@ fn read_quad(f: &mut BinReader, emitter: &impl Emitter) -> ReadResult<Option<Qua
     let anm_script = f.read_u16()?;
     match f.read_u16()? {
         0 => {},  // This word is zero in the file, and used to store an index in-game.
-        s => return Err(emitter.emit(warning!("unexpected data in quad index field: {s:#04x}"))),
+        s => return Err(emitter.emit(error!("unexpected data in quad index field: {s:#04x}"))),
     };
 
     Ok(Some(Quad {
